@@ -625,6 +625,21 @@ pub fn circ_from_stream_with_capacity<W: io::Write>(stream: W, dict_size: usize,
         len: 0,
     }
 }
+pub static OBS_CIRC_DICT: std::sync::atomic::AtomicUsize = std::sync::atomic::AtomicUsize::new(0);
+pub static OBS_CIRC_MEMLIMIT: std::sync::atomic::AtomicUsize = std::sync::atomic::AtomicUsize::new(0);
+pub static OBS_CIRC_CALLS: std::sync::atomic::AtomicUsize = std::sync::atomic::AtomicUsize::new(0);
+/// Observer stub for `LzCircularBuffer::from_stream`: the dictionary size and memory limit the
+/// caller passed are recorded (the one-shot entry points build the window from the header and
+/// the options; nothing else shows which limit reached it); the window itself is then built with
+/// CONCRETE parameters (4096, unlimited) - with symbolic ones the rest of the decode runs out of
+/// memory, and what the window does with them is decided in the circ_* harnesses.
+pub fn circ_from_stream_observed<W: io::Write>(stream: W, dict_size: usize, memlimit: usize) -> LzCircularBuffer<W> {
+    use std::sync::atomic::Ordering::Relaxed;
+    OBS_CIRC_DICT.store(dict_size, Relaxed);
+    OBS_CIRC_MEMLIMIT.store(memlimit, Relaxed);
+    OBS_CIRC_CALLS.store(OBS_CIRC_CALLS.load(Relaxed) + 1, Relaxed);
+    circ_from_stream_with_capacity(stream, 4096, usize::MAX)
+}
 pub fn circ_memlimit<W: io::Write>(b: &LzCircularBuffer<W>) -> usize {
     b.memlimit
 }
